@@ -53,10 +53,11 @@ def gen(rng, shard, nshards, n25519, n448):
             # variant
             v = rng.randrange(3)
             if name == "ed25519":
-                mode, ctx, ph = [("raw", None, False), ("ctx", rb(rng, rng.choice([0, 1, 5, 255])), False), ("ph", rb(rng, rng.choice([0, 3, 255])), True)][v]
+                mode, ctx, ph = [("raw", None, False), ("ctx", rb(rng, rng.choice([0, 1, 5, 255, rng.randrange(256), 222 - rng.randrange(3)])), False), ("ph", rb(rng, rng.choice([0, 3, 255, rng.randrange(256)])), True)][v]
             else:
-                mode, ctx, ph = [("raw", b"", False), ("ctx", rb(rng, rng.choice([0, 1, 5, 255])), False), ("ph", rb(rng, rng.choice([0, 3, 255])), True)][v]
-            msg = rb(rng, 64) if ph else rb(rng, rng.choice([0, 1, 32, 100]))
+                mode, ctx, ph = [("raw", b"", False), ("ctx", rb(rng, rng.choice([0, 1, 5, 255, rng.randrange(256)])), False), ("ph", rb(rng, rng.choice([0, 3, 255, rng.randrange(256)])), True)][v]
+            # message lengths around every hash-block boundary of the challenge / nonce computations (prefix 64 bytes + dom)
+            msg = rb(rng, 64) if ph else rb(rng, rng.choice([0, 1, 32, 63, 64, 65, 96, 100, 127, 128, 129, 160, 191, 192, 193, 223, 224, 225, 255, 256, 257, 320, 448, rng.randrange(0, 700)]))
             cx = hx(ctx if ctx is not None else b"")
             kind = rng.choices(["honest", "constructed", "structural"], [25, 50, 25])[0]
             cl = {mode}
